@@ -314,7 +314,7 @@ def run(chk, tier):
     post = st.objs[args[0].obj]
     okr = r is post.fields[iD] and r.op == "res" and ROLE["stir_pool"].split("::")[-1] in str(r.args[0].aux)
     chk.ob("R8", "gen_entropy|returns the pool as left by stir_pool", okr, "returns %s" % T.show(r, 2), where=crate.bodies[gk]["span"][0])
-    recs = list(ev.loops_log)  # the loops may live in library combinators (for_each, try_fold) inlined under gen_entropy
+    recs = [r_ for r_ in ev.loops_log if not r_.closed]  # the loops may live in library combinators (for_each, try_fold) inlined under gen_entropy
     def is_retry_loop(r_):
         mcs = [c for c in r_.calls if c[1].endswith(ROLE["measure_jitter"].split("::")[-1])]
         if len(mcs) != 1 or len(r_.exits) != 1:
@@ -391,7 +391,7 @@ def run(chk, tier):
     st = State()
     args, objs = symbolic_args(ev, st, crate.bodies[gk])
     ev.call_body(st, gk, args)
-    recs = list(ev.loops_log)  # the loops may live in library combinators (for_each, try_fold) inlined under gen_entropy
+    recs = [r_ for r_ in ev.loops_log if not r_.closed]  # the loops may live in library combinators (for_each, try_fold) inlined under gen_entropy
     per = sorted(r_.min_ticks for r_ in recs)
     chk.ob("R9", "gen_entropy|each repetition of a measurement reads the timer three times", 3 in per, "ticks per loop iteration: %s" % per,
            where=crate.bodies[gk]["span"][0])
